@@ -1,4 +1,5 @@
-(* c15 model driver.  input: <D|R> <facts>\t<view of the real JSON (compact, UTF-8)>\t<hex of the pretty rendering of that view>
+(* c15 model driver.  input: <D|R> <facts>\t<view of the real JSON (compact, UTF-8)>\t<hex of the pretty rendering of that view>\t<the
+   confidences of the real compact output: <f32::to_bits>:<printed text> joined by , | ->
    (facts format: harness/src/bin/c15.rs).  output:
    <model's serialisation, UTF-8 | P;;>\t<1|0: the model's parser accepts the real view and re-serialises it to the
    same code points>\t<model confidence bits of the bit flips, joined by ,>\t<1|0|R: wf_ok st (R = wf_ok holds but the registers are not from the register file of the context kind: regs_ok)>\t<1|0: real_conforms
@@ -6,7 +7,8 @@
    rendering | P;;>\t<1|0: pretty_ok: the whitespace-tolerant parser of c15_pretty_parse accepts the real pretty text and
    yields the value of the real compact text>\t<1|0: real_consistent: the self-consistency checker of c15_consistent on the real view>\t<1|0: real_offsets: the
    module-offset checker of c15_offsets_checker on the real view>\t<1|0: real_sorted: keys_sorted (c15_keys_sorted) on the real view; wf field K =
-   the register names / soft_errors objects of the state are not sorted (keys_hyp)>   (wf field: M = wf_ok and regs_ok hold but a frame's module is not a member of the module list) *)
+   the register names / soft_errors objects of the state are not sorted (keys_hyp)>\t<the model's TEXT of every confidence (render_f32 of the model's bits), joined by ,>\t<1|0:
+   conf_text_ok (theorem c15_confidence_text) accepts every real text for the real bits>   (wf field: M = wf_ok and regs_ok hold but a frame's module is not a member of the module list) *)
 (* UTF-8 is done by the extracted Gallina encoder / strict decoder (Driver.encode_utf8 / decode_utf8) *)
 let bytes_of_string (s : string) : z list = List.init (String.length s) (fun i -> z_of_int (Char.code s.[i]))
 let add_cps (b : Buffer.t) (cps : z list) = List.iter (fun z -> Buffer.add_char b (Char.chr (int_of_z z))) (encode_utf8 cps)
@@ -30,7 +32,10 @@ let () =
         let tail = String.sub line (tab + 1) (String.length line - tab - 1) in
         let tab2 = String.index tail '\t' in
         let real_view = String.sub tail 0 tab2 in
-        let real_pretty_hex = String.sub tail (tab2 + 1) (String.length tail - tab2 - 1) in
+        let tail2 = String.sub tail (tab2 + 1) (String.length tail - tab2 - 1) in
+        let tab3 = String.index tail2 '\t' in
+        let real_pretty_hex = String.sub tail2 0 tab3 in
+        let real_confs = String.sub tail2 (tab3 + 1) (String.length tail2 - tab3 - 1) in
         let toks = Array.of_list (split_ws head) in
         let pos = ref 0 in
         let next () = let t = toks.(!pos) in incr pos; t in
@@ -218,6 +223,19 @@ let () =
         Buffer.add_string b (if real_offsets real_cps then "1" else "0");
         Buffer.add_char b '\t';
         Buffer.add_string b (if real_sorted real_cps then "1" else "0");
+        Buffer.add_char b '\t';
+        (match crash with
+         | Some c -> Buffer.add_string b (String.concat "," (List.map (fun f ->
+                       String.concat "" (List.map (fun z -> String.make 1 (Char.chr (int_of_z z))) (flip_confidence_text f))) c.cr_flips))
+         | None -> ());
+        Buffer.add_char b '\t';
+        let conf_ok = (real_confs = "-" || real_confs = "") || List.for_all (fun item ->
+          match String.index_opt item ':' with
+          | None -> false
+          | Some i -> real_confidence_ok (z_of_string (String.sub item 0 i))
+                        (bytes_of_string (String.sub item (i + 1) (String.length item - i - 1))))
+          (String.split_on_char ',' real_confs) in
+        Buffer.add_string b (if conf_ok then "1" else "0");
         print_endline (Buffer.contents b)
       end
     done
